@@ -113,8 +113,9 @@ def renderHV (i : Nat) (hd : EHead) (v : EView) : String :=
 def renderEmitter (i : Nat) (e : Emitter) : String := renderHV i e.head e.view
 
 /-- holder part of the `code|…` dump, from the six observable members -/
-def dumpH (arch : Option Arch) (secs : List Sec) (labels : List LabelE) (relocs : List Reloc) (unres : Nat) (attached : List Nat) : String :=
+def dumpH (arch : Option Arch) (base : Option Nat) (secs : List Sec) (labels : List LabelE) (relocs : List Reloc) (unres : Nat) (attached : List Nat) : String :=
   "code|" ++ (match arch with | none => "uninit" | some .x64 => "x64" | some .x86 => "x86" | some .a64 => "a64") ++
+  ";base=" ++ optStr base ++
   ";secs=" ++ joinMap (enum secs) (fun (i, s) =>
     "[" ++ toString i ++ ":" ++ hexBytes s.name ++ ":" ++ toString s.flags ++ ":" ++ toString s.align ++ ":" ++ toString s.order ++ ":" ++
     (if s.hasOffset then "0" else "none") ++ ":0:" ++ hexBytes s.bytes ++ "]") ++
@@ -131,7 +132,7 @@ def dumpH (arch : Option Arch) (secs : List Sec) (labels : List LabelE) (relocs 
   ";unres=" ++ toString unres ++ ";addrtab=0" ++
   ";att=" ++ joinMap attached (fun i => toString i ++ ",")
 
-def dumpHolder (h : Holder) : String := dumpH h.arch h.secs h.labels h.relocs h.unres h.attached
+def dumpHolder (h : Holder) : String := dumpH h.arch h.base h.secs h.labels h.relocs h.unres h.attached
 
 def dumpEmitters (es : List Emitter) : String := joinMap (enum es) (fun p => renderEmitter p.1 p.2)
 
